@@ -76,6 +76,15 @@ for name, M, args, inputs in [
     defs[f"{name}_explicit"] = mat_explicit(M, args, inputs)
     defs[f"{name}_numpy_cse"] = mat_numpy(M, args, inputs, True)
     defs[f"{name}_numpy_nocse"] = mat_numpy(M, args, inputs, False)
+# rotations whose angle argument is a compound expression (sum, difference, multiple, negative)
+c2 = sp.Symbol("c", real=True)
+C1 = np.array([c2], dtype=object)
+nsym = sp.Symbol("n")
+for tag, ang in (("sum", a + c2), ("diff", a - c2), ("triple", 3 * a), ("neg", -a)):
+    for name, cls in (("roty", RotationYMatrix), ("rotz", RotationZMatrix)):
+        for cse in (True, False):
+            defs[f"{name}_{tag}_numpy_{'cse' if cse else 'nocse'}"] = mat_numpy(
+                cls(ang, n_events=nsym), [a, c2, nsym], [A1, C1, 1], cse)
 defs["metric_numpy"] = mat_numpy(MinkowskiMetric(p), [p], [P], False)
 defs["metric_explicit"] = [[sp.sympify(v) for v in row] for row in MinkowskiMetric(p).as_explicit().tolist()]
 negp = {f"negp_{'cse' if c else 'nocse'}": vec_numpy(NegativeMomentum(p), [p], [P], c) for c in (True, False)}
